@@ -71,7 +71,13 @@ type pktChain struct {
 	// relayer address string -> chain -> the address registered for that chain ("address on the other chain")
 	regAddr map[string]map[string]string
 	restarts int // genesis export -> import restarts so far
+	kind     map[string]string // client name -> tm | bsc | eth | tss (what the client currently is)
+	toggled  map[string]bool   // clients currently switched away from their native kind
 }
+
+const pktT = 3 // index of the TSS account
+
+func (c *pktChain) tssAddr() string { return c.accts[pktT].addr.String() }
 
 type pktSent struct {
 	bz       []byte
@@ -109,6 +115,8 @@ type pktWorld struct {
 	sent   []*pktSent
 	byEnc  map[string]*pktSent // canonical packet bytes -> sent packet
 	bulks  []*pktBulk
+	tsss   []*pktTss
+	curSigner string // signer of the message whose ground truth is being computed
 	evms   []*pktEvm           // EVM-secured counterparties (bsc / eth clients on chain 0)
 	evmBy  map[string]*pktEvm  // host chain name | client name
 	// oracle state
@@ -137,7 +145,7 @@ func pktNewWorld(t *testing.T, r *Rec, mixedCase bool) *pktWorld {
 	w.op("reset", "ok")
 	for i := 0; i < 3; i++ {
 		tc := w.coord.GetChain(xibctesting.GetChainID(i))
-		c := &pktChain{tc: tc, name: tc.ChainID, prev: map[string]string{}, track: map[string]*pktChain{}, reg: map[string][]string{}, regAddr: map[string]map[string]string{}}
+		c := &pktChain{tc: tc, name: tc.ChainID, prev: map[string]string{}, track: map[string]*pktChain{}, reg: map[string][]string{}, regAddr: map[string]map[string]string{}, kind: map[string]string{}, toggled: map[string]bool{}}
 		if mixedCase {
 			// the XIBC chain name is independent of the Tendermint chain id (which stays tc.ChainID): rename the chain
 			// in the client keeper and in the packet contract before anything else happens
@@ -151,7 +159,7 @@ func pktNewWorld(t *testing.T, r *Rec, mixedCase bool) *pktWorld {
 	}
 	// extra accounts (same keys on all chains so that addresses coincide, like the testing sender)
 	var extra []*ethsecp256k1.PrivKey
-	for i := 0; i < 2; i++ {
+	for i := 0; i < 3; i++ { // R1, R2 and T (the TSS account)
 		// deterministic keys derived from the PRNG
 		kb := make([]byte, 32)
 		r.Rng.Read(kb)
@@ -203,6 +211,7 @@ func (w *pktWorld) createClient(c *pktChain, name string, of *pktChain, delay ui
 		w.t.Fatal(err)
 	}
 	c.track[name] = of
+	c.kind[name] = "tm"
 	w.op(fmt.Sprintf("client %s %s tm %d %d %s %d %d 0 -", hxs(c.name), hxs(name), height.RevisionNumber, height.RevisionHeight,
 		hx(cons.GetRoot()), uint64(ctx.BlockTime().UnixNano()), delay), "ok")
 	w.commit(c)
@@ -483,6 +492,11 @@ func (c *pktChain) sameProof(a, b []byte) bool {
 // state that consensus height h refers to" (semantic), and additionally whether `proof` is the genuine proof of
 // exactly that (path, height) (genuine).
 func (w *pktWorld) truth(c *pktChain, client string, path []byte, value []byte, h clienttypes.Height, proof []byte) (semantic, genuine bool) {
+	if c.kind[client] == "tss" {
+		// a TSS-secured counterparty: what it "committed" is what its TSS address signs — by construction of the harness
+		// the TSS account T; the proof field plays no role
+		return w.curSigner == c.tssAddr(), true
+	}
 	if ev, isEvm := w.evmBy[c.name+"|"+client]; isEvm {
 		return ev.truth(path, value, h, proof)
 	}
@@ -892,6 +906,7 @@ func (w *pktWorld) recv(c *pktChain, packet, proof []byte, h clienttypes.Height,
 	enc, _ := p.ABIPack()
 	value := pktSha(enc)
 	path := host.PacketCommitmentKey(p.SrcChain, p.DstChain, p.Sequence)
+	w.curSigner = signer
 	sem, gen := w.truth(c, p.SrcChain, path, value, h, proof)
 	// acknowledgements the model may have to construct (callback result is supplied after the fact from the event)
 	msg := &packettypes.MsgRecvPacket{Packet: packet, ProofCommitment: proof, ProofHeight: h, Signer: signer}
@@ -1039,6 +1054,7 @@ func (w *pktWorld) ack(c *pktChain, packet, ackBz, proof []byte, h clienttypes.H
 	aid, _, _ := w.defAck(ackBz)
 	signer := c.accts[acct].addr.String()
 	path := host.PacketAcknowledgementKey(p.SrcChain, p.DstChain, p.Sequence)
+	w.curSigner = signer
 	sem, gen := w.truth(c, p.DstChain, path, pktSha(ackBz), h, proof)
 	msg := &packettypes.MsgAcknowledgement{Packet: packet, Acknowledgement: ackBz, ProofAcked: proof, ProofHeight: h, Signer: signer}
 	now := c.now()
@@ -1158,6 +1174,8 @@ func (w *pktWorld) ack(c *pktChain, packet, ackBz, proof []byte, h clienttypes.H
 				Ops: append([]string{}, w.hist...), Obs: delta, Req: "-" + ck})
 		}
 		if !sem {
+			w.r.Find(Finding{Sig: "C05:commitment-removed-by-unverified-ack:" + tag, What: "a commitment was removed by an acknowledgement the counterparty (its light client's state / its TSS address) never produced",
+				Ops: append([]string{}, w.hist...), Obs: "accepted", Req: "rejected"})
 			w.r.Find(Finding{Sig: "C02:ack-accepted-not-committed:" + tag, What: "acknowledgement accepted although the destination chain did not store the hash of these ack bytes at the proof height",
 				Ops: append([]string{}, w.hist...), Obs: "accepted", Req: "rejected"})
 		}
